@@ -1,13 +1,16 @@
 """Implementation adapter for C17: same line protocol as ocaml/c17_driver.ml, answers from /repo.
 Strings travel as hex of their UTF-8 encoding ('-' = empty); floats as float.hex()."""
-import sys, os, logging
+import sys, os, logging, hashlib, json, copy
 sys.path.insert(0, os.path.dirname(os.path.abspath(__file__)))
 from common_impl import serve
 logging.disable(logging.CRITICAL)
 from bitcoinlib.values import Value, value_to_satoshi
 from bitcoinlib.networks import NETWORK_DEFINITIONS, DEFAULT_NETWORK
 from bitcoinlib.config.config import NETWORK_DENOMINATORS
-from bitcoinlib.transactions import Output, Transaction
+from bitcoinlib.transactions import Output, Input, Transaction
+from bitcoinlib.keys import Key
+
+SIDE = {}          # txs request line -> [[vsize before, vsize after] per operation] (sizes are inputs of the model)
 
 
 def s_of(h):
@@ -148,6 +151,18 @@ def dispatch(t):
             except Exception:
                 return tok_of_num(o.value) + ' ERR'
             return tok_of_num(o.value) + ' ' + raw_value_bytes(tx)
+        if k == 'seq':
+            return in_child(lambda: run_seq(t[1:]))
+        if k == 'vobj':
+            return in_child(lambda: run_vobj(t[1], t[2:]))
+        if k == 'txs':
+            r, side = in_child(lambda: run_txs(t), with_side=True)
+            if side is not None:
+                SIDE[' '.join(t)] = side
+            return r
+        if k == 'wtx':
+            wallet_template(t[1])
+            return in_child(lambda: run_wtx(t))
     except RecursionError:
         raise
     except Exception:
@@ -155,4 +170,395 @@ def dispatch(t):
     return 'BADREQ'
 
 
-serve(dispatch)
+# ---------------------------------------------------------------- sessions
+def in_child(fn, with_side=False):
+    """run one session in a forked child: it starts from the state of the freshly imported library (sessions come first
+    in every run) and leaves nothing behind, so a replay of the single request sees exactly the same process state"""
+    rd, wr = os.pipe()
+    pid = os.fork()
+    if pid == 0:
+        try:
+            os.close(rd)
+            try:
+                res = fn()
+            except RecursionError:
+                res = 'CRASH recursion'
+            except Exception as e:
+                res = 'CRASH %s' % type(e).__name__
+            if not with_side:
+                res = (res, None)
+            with os.fdopen(wr, 'w') as f:
+                json.dump(res, f)
+        finally:
+            os._exit(0)
+    os.close(wr)
+    with os.fdopen(rd) as f:
+        data = f.read()
+    os.waitpid(pid, 0)
+    try:
+        res, side = json.loads(data)
+    except Exception:
+        res, side = 'CRASH child', None
+    return (res, side) if with_side else res
+
+
+def run_seq(toks):
+    steps, cur = [], []
+    for x in toks:
+        if x == '|':
+            steps.append(cur)
+            cur = []
+        else:
+            cur.append(x)
+    steps.append(cur)
+    outs = []
+    for st in steps:
+        if st and st[0] == '!':
+            st = st[1:]
+        outs.append(dispatch(st) if st else 'BADREQ')
+    return ' | '.join(outs)
+
+
+def run_vobj(init, ops):
+    f = init.split(',')
+    try:
+        if f[0] == 'S':
+            v = Value(s_of(f[1]), network=s_of(f[2]))
+        else:
+            v = Value.from_satoshi(int(f[1]), dspec(f[2]), network=s_of(f[3]))
+    except Exception:
+        return 'ERR'
+    outs = ['OK']
+    for op in ops:
+        o = op.split(',')
+        try:
+            if o[0] == 'sat':
+                r = v.value_sat
+                a = str(r) if isinstance(r, int) and not isinstance(r, bool) else '?' + type(r).__name__
+            elif o[0] == 'str':
+                a = h_of(v.str(dspec(o[1]), None if o[2] == '-' else int(o[2])))
+            elif o[0] == 'bytes':
+                a = v.to_bytes().hex()
+            elif o[0] == 'add':
+                v = v + Value(s_of(o[1]))
+                a = show_value(v)
+            elif o[0] == 'iadd':
+                v += Value(s_of(o[1]))
+                a = show_value(v)
+            elif o[0] == 'sub':
+                v = v - Value(s_of(o[1]))
+                a = show_value(v)
+            elif o[0] == 'isub':
+                v -= Value(s_of(o[1]))
+                a = show_value(v)
+            elif o[0] == 'mul':
+                v = v * int(o[1])
+                a = show_value(v)
+            elif o[0] == 'div':
+                v = v / int(o[1])
+                a = show_value(v)
+            elif o[0] == 'addk':              # result shown and dropped: v stays the old object
+                a = show_value(v + Value(s_of(o[1])))
+            elif o[0] == 'subk':
+                a = show_value(v - Value(s_of(o[1])))
+            elif o[0] == 'mulk':
+                a = show_value(v * int(o[1]))
+            elif o[0] == 'divk':
+                a = show_value(v / int(o[1]))
+            else:
+                a = 'BADREQ'
+        except Exception:
+            a = 'ERR'
+        outs.append(a)
+    return ' | '.join(outs)
+
+
+# ---------------------------------------------------------------- one Transaction object, amount-changing operations
+TX_ERRS = [("Not enough unspent inputs found", 'bumpnoinput'), ("Current transaction fee is zero", 'bumpzerofee'), ("Fee cannot be less than minimal required fee", 'bumpfeelow'),
+           ("Extra fee cannot be less", 'bumpextralow'), ("Not enough unspent outputs to bump", 'bumpnochange'),
+           ("Output value < 0 not allowed", 'badvalue'), ("fee_per_kb is not set", 'norate')]
+WT = {'L': 'legacy', 'S': 'segwit'}
+
+
+def out_hash(i):
+    return hashlib.sha256(b'c17-out-%d' % i).digest()[:20]
+
+
+def amount_tok(v):
+    if v is None:
+        return 'N'
+    return tok_of_num(v)
+
+
+def tx_snapshot(t, idx_of):
+    outs = []
+    for o in t.outputs:
+        i = idx_of.get(bytes(o.public_hash), '?')
+        outs.append('%s:%s:%d' % (i, amount_tok(o.value), 1 if o.change else 0))
+    try:
+        raw = t.raw_hex()
+    except Exception:
+        raw = 'ERR'
+    return 'fee=%s fpk=%s out=%s in=%s vsa=%s raw=%s' % (
+        amount_tok(t.fee), amount_tok(t.fee_per_kb), ','.join(outs) or '-',
+        ','.join(amount_tok(i.value) for i in t.inputs) or '-', amount_tok(t.vsize), raw)
+
+
+def working_vsize(t):
+    """the vsize bumpfee / calculate_fee work with: the attribute, or what estimate_size() would set it to"""
+    if t.vsize:
+        return int(t.vsize)
+    try:
+        c = copy.deepcopy(t)
+        c.estimate_size()
+        return int(c.vsize)
+    except Exception:
+        return 0
+
+
+def run_txs(t):
+    # txs <hexnet> <L|S> <S|U> <in values> <out value:change,...> <op>...
+    net, wt, mode = s_of(t[1]), WT[t[2]], t[3]
+    side = []
+    try:
+        ins = [int(x) for x in t[4].split(',')] if t[4] != '-' else []
+        outs = [(int(x.split(':')[0]), x.split(':')[1] == '1') for x in t[5].split(',')] if t[5] != '-' else []
+        keys = [Key(hashlib.sha256(b'c17-key-%d' % i).digest(), network=net) for i in range(len(ins))]
+        inputs = [Input(hashlib.sha256(b'c17-prev-%d' % i).digest(), i, keys=keys[i], value=v, witness_type=wt, network=net)
+                  for i, v in enumerate(ins)]
+        idx_of = {}
+        outputs = []
+        for i, (v, c) in enumerate(outs):
+            idx_of[out_hash(i)] = i
+            outputs.append(Output(v, public_hash=out_hash(i), network=net, change=c, witness_type=wt))
+        tx = Transaction(inputs, outputs, network=net, witness_type=wt)
+    except Exception:
+        return 'ERR ctor', None
+    nxt = len(outs)
+    res = []
+    if mode == 'S':
+        try:
+            tx.sign_and_update()
+            r = 'OK'
+        except Exception as e:
+            r = 'ERR ' + tx_err(e)
+        side.append([0, int(tx.vsize or 0)])
+    else:
+        r = 'OK'
+        side.append([0, 0])
+    res.append(r + ' ' + tx_snapshot(tx, idx_of))
+    for op in t[6:]:
+        o = op.split(',')
+        pre = working_vsize(tx) if o[0] in ('b', 'c') else int(tx.vsize or 0)
+        try:
+            if o[0] == 'b':
+                tx.bumpfee(fee=int(o[1]), extra_fee=int(o[2]))
+                r = 'OK'
+            elif o[0] == 'a':
+                idx_of[out_hash(nxt)] = nxt
+                tx.add_output(num_of(o[1]), public_hash=out_hash(nxt), change=(o[2] == '1'))
+                nxt += 1
+                r = 'OK'
+            elif o[0] == 'av':
+                idx_of[out_hash(nxt)] = nxt
+                tx.add_output(Value(s_of(o[1]), network=net), public_hash=out_hash(nxt), change=(o[2] == '1'))
+                nxt += 1
+                r = 'OK'
+            elif o[0] == 'u':
+                tx.update_totals()
+                r = 'OK'
+            elif o[0] == 's':
+                tx.sign_and_update()
+                r = 'OK'
+            elif o[0] == 'e':
+                r = 'OK r=%s' % amount_tok(tx.estimate_size(number_of_change_outputs=int(o[1])))
+            elif o[0] == 'c':
+                tx.fee_per_kb = int(o[1])
+                r = 'OK r=%s' % amount_tok(tx.calculate_fee())
+            else:
+                r = 'BADREQ'
+        except Exception as e:
+            r = 'ERR ' + (tx_err(e) if o[0] not in ('a', 'av') else 'addout')
+        side.append([pre, int(tx.vsize or 0)])
+        res.append(r + ' ' + tx_snapshot(tx, idx_of))
+    return ' | '.join(res), side
+
+
+def tx_err(e):
+    m = str(e)
+    for pat, tok in TX_ERRS:
+        if pat in m:
+            return tok
+    if isinstance(e, OverflowError):
+        return 'badvalue'
+    return 'other:' + type(e).__name__
+
+
+# ---------------------------------------------------------------- wallet level (oracle only; the model of these is C07)
+TEMPLATES = {}
+
+
+class StubService:
+    """no network: fee estimates come from the request"""
+    fpk = 10000
+
+    def __init__(self, *a, **k):
+        self.errors, self.results, self.complete, self.resultcount = {}, {}, True, 1
+
+    def estimatefee(self, blocks=3, priority=''):
+        return StubService.fpk
+
+    def blockcount(self):
+        return 800000
+
+    def sendrawtransaction(self, raw):
+        return False
+
+
+def wallet_template(wt):
+    """one template wallet per witness type (created in the parent, before the fork); every case copies its file"""
+    if wt in TEMPLATES:
+        return TEMPLATES[wt]
+    import bitcoinlib.wallets as bw
+    from bitcoinlib.keys import HDKey
+    bw.Service = StubService
+    name = 'c17_tmpl_%s' % wt
+    path = os.path.join(os.getcwd(), name + '.db')
+    if os.path.exists(path):
+        os.remove(path)
+    w = bw.Wallet.create(name, keys=HDKey.from_seed(b'\x17' * 32, network='bitcoinlib_test', witness_type=WT[wt]),
+                         network='bitcoinlib_test', witness_type=WT[wt], db_uri='sqlite:///' + path)
+    addrs = [w.get_key().address, w.new_key().address]
+    w.get_keys(change=1, number_of_keys=4)
+    w.session.close()
+    TEMPLATES[wt] = (name, path, addrs)
+    return TEMPLATES[wt]
+
+
+def wtx_snapshot(tx):
+    outs = []
+    for o in tx.outputs:
+        outs.append('%s:%s:%d' % (OUT_TAG.get(bytes(o.public_hash), '?'), amount_tok(o.value), 1 if o.change else 0))
+    try:
+        raw = tx.raw_hex()
+    except Exception:
+        raw = 'ERR'
+    return 'fee=%s out=%s in=%s raw=%s' % (amount_tok(tx.fee), ','.join(outs) or '-',
+                                           ','.join(amount_tok(i.value) for i in tx.inputs) or '-', raw)
+
+
+OUT_TAG = {out_hash(i): i for i in range(64)}
+
+
+def run_wtx(t):
+    # wtx <L|S> <utxo values> <pay amounts> <fee|N:fpk> <k> <shuffle 0|1> <bump: -|fee,extra>
+    import shutil, random
+    import numpy as np
+    import bitcoinlib.wallets as bw
+    from bitcoinlib.keys import Address
+    name, path, addrs = wallet_template(t[1])
+    cpath = os.path.join(os.getcwd(), 'c17_case_%d.db' % os.getpid())
+    shutil.copyfile(path, cpath)
+    seed = hashlib.sha256(' '.join(t).encode()).digest()
+    random.seed(seed)
+    np.random.seed(int.from_bytes(seed[:4], 'big'))
+    try:
+        w = bw.Wallet(name, db_uri='sqlite:///' + cpath)
+        utxos = [int(x) for x in t[2].split(',')]
+        w.utxos_update(utxos=[dict(address=addrs[i % 2], script='', confirmations=3 + i, output_n=i,
+                                   txid=hashlib.sha256(b'c17-wutxo-%d' % i).hexdigest(), value=v) for i, v in enumerate(utxos)])
+        pays = [int(x) for x in t[3].split(',')]
+        enc = 'bech32' if t[1] == 'S' else 'base58'
+        stype = 'p2wpkh' if t[1] == 'S' else 'p2pkh'
+        outs = [(Address(hashed_data=out_hash(i), script_type=stype, encoding=enc, network='bitcoinlib_test').address, v)
+                for i, v in enumerate(pays)]
+        if t[4].startswith('N:'):
+            StubService.fpk = int(t[4][2:])
+            fee = None
+        else:
+            fee = int(t[4])
+        res = []
+        try:
+            tx = w.send(outs, fee=fee, number_of_change_outputs=int(t[5]), random_output_order=(t[6] == '1'),
+                        replace_by_fee=True, broadcast=False)
+        except Exception as e:
+            if 'Sum of inputs values is not equal' in str(e):
+                return 'ERR send:conserve'
+            if 'Output must be of type integer' in str(e) or 'Output value < 0' in str(e):
+                return 'ERR send:badamount'
+            return 'ERR send:%s' % type(e).__name__
+        res.append('OK ' + wtx_snapshot(tx))
+        if t[7] != '-':
+            f, e = t[7].split(',')
+            try:
+                tx.bumpfee(fee=int(f), extra_fee=int(e))
+                r = 'OK'
+            except Exception as ex:
+                r = 'ERR ' + tx_err(ex)
+            res.append(r + ' ' + wtx_snapshot(tx))
+        return ' | '.join(res)
+    finally:
+        try:
+            w.session.close()
+        except Exception:
+            pass
+        try:
+            os.remove(cpath)
+        except Exception:
+            pass
+
+
+SESSION_KINDS = ('seq', 'vobj', 'txs', 'wtx')
+
+
+def session_worker(line):
+    """runs in a pool worker that serves exactly one task (maxtasksperchild=1): a fresh fork of the idle parent"""
+    t = line.split(' ')
+    try:
+        if t[0] == 'seq':
+            return run_seq(t[1:]), None
+        if t[0] == 'vobj':
+            return run_vobj(t[1], t[2:]), None
+        if t[0] == 'txs':
+            return run_txs(t)
+        if t[0] == 'wtx':
+            return run_wtx(t), None
+    except RecursionError:
+        return 'CRASH recursion', None
+    except Exception as e:
+        return 'CRASH %s' % type(e).__name__, None
+    return 'BADREQ', None
+
+
+def main():
+    lines = [l.strip() for l in sys.stdin.read().split('\n')]
+    if lines and lines[-1] == '':
+        lines.pop()
+    answers = [None] * len(lines)
+    sess = [i for i, l in enumerate(lines) if l.split(' ')[0] in SESSION_KINDS]
+    nproc = int(os.environ.get('C17_WORKERS', '0') or 0) or max(1, min(8, (os.cpu_count() or 2) // 2))
+    if len(sess) > 8 and nproc > 1:
+        # all sessions first, each in its own fresh fork of this (still untouched) process, several at a time
+        for i in sess:
+            if lines[i].startswith('wtx '):
+                wallet_template(lines[i].split(' ')[1])
+        import multiprocessing as mp
+        with mp.get_context('fork').Pool(nproc, maxtasksperchild=1) as pool:
+            for i, (r, side) in zip(sess, pool.imap(session_worker, [lines[i] for i in sess], chunksize=1)):
+                answers[i] = r
+                if side is not None:
+                    SIDE[lines[i]] = side
+    out = sys.stdout
+    for i, line in enumerate(lines):
+        if answers[i] is None:
+            try:
+                answers[i] = dispatch(line.split(' '))
+            except RecursionError:
+                answers[i] = 'CRASH recursion'
+        out.write(answers[i] + '\n')
+    out.flush()
+    with open(os.path.join(os.getcwd(), 'c17_side.json'), 'w') as f:
+        json.dump(SIDE, f)
+
+
+main()
